@@ -75,6 +75,49 @@ CLAIMED = {
         "buffer code is C17. The five crashing inputs of the pinned commit were repaired by fix: commits (known_findings.json). No axioms.",
    technique="Coq totality proofs by induction on the octet list over a model with explicit Panic; exhaustive small-input differential run; API fault run",
    ref="5 C01"),
+ "C04": dict(
+   text="Coq theorems C04_* over Model/Ops.v: the community receive loop, run on ANY list of arriving datagrams, delivers a PDU only if the "
+        "first non-skippable datagram decodes as the session's version with the session's community and (unless a Report) the outstanding "
+        "request-id (C04_delivered, C04_never_wrong_request, C04_never_wrong_community); skipped datagrams do not end the wait and a later "
+        "matching reply is still delivered (C04_skip_continues, C04_later_reply_delivered); a datagram that does not decode ends the call with "
+        "SnmpDecodeError (C04_decode_error_ends_call); timeout iff everything was skippable.  The v3 acceptance condition is Properties/C10.v. "
+        "Fault scripts (all words of length <= 2 over 11 faults, random longer) run against real v1/v2c sync/async sessions; expected outcome "
+        "computed from the ids seen on the wire.",
+   note="Trusted: Coq kernel; hand model tied by differential execution; loss/duplication/delay/reordering are modelled as the arrival list "
+        "the kernel hands to recv in order; wall-clock behaviour is C18. No axioms.",
+   technique="Coq characterisation of the receive loop by induction on the arrival list; fault-script run against the real client",
+   ref="5 C04"),
+ "C05": dict(
+   text="Coq theorems C05_getnext / C05_getbulk / C05_same over Model/Walk.v and the reference agent Spec/Agent.v: for every finite MIB "
+        "strictly sorted by sub-identifier lists, every base OID, every max_repetitions >= 1, agent cap >= 1 and padding, and v1 as well as "
+        "v2c/v3 end-of-MIB behaviour, the GetNext walk, the GetBulk walk and fetch() yield exactly the entries strictly below the base, in "
+        "order, once, then stop.  Key lemmas: byte-prefix on canonical BER = sub-identifier prefix, is_after = lexicographic order, the subtree "
+        "is a contiguous interval.  630+ walks of the real client (v1, v2c, v3 noAuth, v3 MD5+DES; sync/async) against an independent MIB agent.",
+   note="Trusted: Coq kernel; hand model of GetIter/OpGetNext/OpGetBulk and of the Python iterators tied by differential execution (C06) and "
+        "by the API walks; the reference agent is a specification, the test agent an independent Python implementation. No axioms.",
+   technique="Coq proof by induction over the sorted MIB; API walks against an independent RFC 3416 agent",
+   ref="5 C05"),
+ "C06": dict(
+   text="Coq theorems C06_* over Model/Walk.v for an ARBITRARY agent (any function from request number and requested OID to a reply) and any "
+        "fuel: every yielded OID lies in the subtree (C06_contained), yielded OIDs are strictly increasing hence pairwise distinct "
+        "(C06_increasing), each request carries the last accepted OID (C06_*_followup), items come from the replies in order (C06_*_order), "
+        "the walk stops exactly at the first reply that is empty / out of subtree / not increasing / without data values (C06_*_stops), never "
+        "crashes, and makes at most |U|+1 requests when reply OIDs come from a finite set U (C06_terminates, C06_request_bound_*).  "
+        "Exhaustive reply streams over a 9-OID x 4-value universe (54872 GetNext streams of depth 3, ~19k GetBulk) through the real "
+        "OpGetNext/OpGetBulk + GetIter (debug+release), and scripted agents incl. repeating ones against the real iterators.",
+   note="Trusted: Coq kernel; hand model tied by exhaustive differential execution. The repeated-OID defect of the pinned commit was repaired "
+        "by a fix: commit (known_findings.json). No axioms.",
+   technique="Coq invariants over arbitrary reply streams; exhaustive small-universe differential run; adversarial API agents",
+   ref="5 C06"),
+ "C07": dict(
+   text="Coq theorems C07_get (complete decision table of get: no varbind / NULL -> None, the three exception values -> NoSuchInstance, each "
+        "data kind -> its Python value, >= 2 varbinds -> SnmpDecodeError, Report -> SnmpAuthError, other PDUs -> SnmpDecodeError), "
+        "C07_getmany (the dict is exactly the left-to-right fold of the data-valued varbinds keyed by dotted OID, later duplicates overwrite, "
+        "keys distinct), C07_error_family (exception classes re-checked against the generated error map).  10k responses through the real "
+        "to_python (debug+release) and 144 API calls (v1, v2c, v3; sync/async) judged by an independent table.",
+   note="Trusted: Coq kernel; hand model; generated Gen/ErrorMap.v (translator tools/gen_errormap.py). No axioms.",
+   technique="Coq case analysis over the model + generated error map; differential run vs Rust; API run with independent oracle",
+   ref="5 C07"),
 }
 
 PENDING = "check not built yet in this round (see DESIGN.md section 7 for the order of work)"
